@@ -94,6 +94,16 @@ Theorem C01_reads_refine : forall (mode : dbmode) (ops : list wop) (I : N) (ks :
              forall k' v, In (k', v) sc <-> srun (db_init mode []) ops sempty (k_id ks) k' = Some v.
 Proof. exact db_reads_refine. Qed.
 
+(* the same for EVERY keyspace object of the reached state: keyspace ids are unique in every reachable state (UQ, RefineP.v) *)
+Theorem C01_reads_refine_all : forall (mode : dbmode) (ops : list wop) (I : N) (ks : kspace) (k : bytes),
+  let d := fold_left wstep ops (db_init mode []) in
+  In ks (d_kss d) -> d_seqno d < I ->
+  t_get (k_tree ks) k I = Some (srun (db_init mode []) ops sempty (k_id ks) k) /\
+  exists sc, t_scan (k_tree ks) I = Some sc /\
+             StronglySorted (fun a b => bytes_ltb (fst a) (fst b) = true) sc /\
+             forall k' v, In (k', v) sc <-> srun (db_init mode []) ops sempty (k_id ks) k' = Some v.
+Proof. exact db_reads_refine_all. Qed.
+
 (* ---- the program interpreter whose observation lines are compared with the implementation (Prog.v db_step / run) ----
    On a plain database every write / batch / clear / ingestion / rotate / step / drain / major / reopen operation of a program
    is exactly one operation of the database model (or changes nothing, when it is refused), reads change nothing ... *)
@@ -124,6 +134,18 @@ Theorem C01_scan_observation : forall filters (rs : list rop) (h : N) (ks : kspa
     StronglySorted (fun a b => bytes_ltb (fst a) (fst b) = true) sc /\
     forall k v, In (k, v) sc <-> abs MAXSEQ (k_tree ks) k = Some v.
 Proof. exact plain_scan_obs. Qed.
+
+(* the observation LIST of a whole program: the line printed for a `get` placed anywhere in a plain program (any writes,
+   maintenance, deletions and reopens before it, anything after it) is the latest-version point read of the state reached there,
+   and that state is reached by model operations *)
+Theorem C01_program_get_line : forall filters (p1 p2 : list op) (h : N) (k : bytes),
+  forallb plain_op p1 = true ->
+  let d0 := db_init MPlain filters in
+  let d := fst (run as_is d0 p1) in
+  forall ks, handle_ks d h = Some ks -> d_seqno d < MAXSEQ ->
+  nth (length p1) (snd (run as_is d0 (p1 ++ OGet VwNone h k :: p2))) (Ox ObBadref) = Ox (ObOpt (abs MAXSEQ (k_tree ks) k)) /\
+  exists rs, d = fold_left rstep rs d0.
+Proof. exact plain_program_get_line. Qed.
 
 (* maintenance is invisible: these five operations are the identity of the reference step, by definition of sstep *)
 Theorem C01_maintenance_invisible : forall (d : db) (m : smap) (id : N) (fuel : nat) (ev : bool),
@@ -158,6 +180,8 @@ Proof. exact refine_example. Qed.
 Print Assumptions C01_step_refines.
 Print Assumptions C01_refines_reference_map.
 Print Assumptions C01_reads_refine.
+Print Assumptions C01_reads_refine_all.
+Print Assumptions C01_program_get_line.
 Print Assumptions C01_interpreter_steps_are_model_steps.
 Print Assumptions C01_interpreter_states_reachable.
 Print Assumptions C01_get_observation.
